@@ -5,7 +5,7 @@ from props import coregen as G, corecheck as K
 PID = 'C01'
 PROFILE = dict(named_cols=0.4, partial_args=0.3, inclusion=0.3, assign=0.7, lists=0.35, records=0.35, combine=0.0,
                disjunction=0.35, filter=0.45, negation=0.0, two_rules=0.35, distinct=0.0, aggregation=0.0,
-               ifthenelse=0.5, builtins=0.4, func_calls=0.5, share_names=0.5, set_agg=0.0, operators=0.6)
+               ifthenelse=0.5, builtins=0.4, func_calls=0.5, share_names=0.5, table_funcs=0.5, dup_calls=0.5, set_agg=0.0, operators=0.6)
 
 # programs for the elimination tie: more unifications, chains of assignments, calls (inlined as tables)
 ELIM_PROFILE = dict(PROFILE, inclusion=0.0, lists=0.0, records=0.0, assign=0.9, filter=0.6, func_calls=0.5, builtins=0.3)
@@ -38,9 +38,15 @@ def run(tier, replay=None):
           if c:
             texts.append(c['text'])
     tie = elimtie.run_tie(texts)
-    rep.coverage['elimination_tie'] = {k: v for k, v in tie.items() if k != 'mismatches'}
+    rep.coverage['elimination_tie'] = {k: v for k, v in tie.items() if 'mismatches' not in k}
+    rep.coverage['elimination_tie']['extract_mismatching_rules'] = [t for t, _ in tie['extract_mismatches'][:5]]
     rep.coverage['elimination_tie']['mismatching_rules'] = [t for t, _ in tie['mismatches'][:5]]
     rep.coverage['traces_validated_against_impl'] = tie['exact'] + tie['both_reject']
+    if tie['extract_mismatches'] and not found:
+      rep.violation('tie-extraction', {
+          'broken': 'correspondence Core/Extract.v extract vs rule_translate.ExtractRuleStructure (select, unifications, '
+                    'constraints, column variables, tables); theorems C01_compiled_rule_* are about the model',
+          'rules': [t for t, _ in tie['extract_mismatches'][:5]]}, no_input=True)
     if (tie['mismatches'] or tie['error']) and not found:
       rep.violation('tie-elimination', {
           'broken': 'correspondence Core/Elim.v eliminate vs rule_translate.RuleStructure.ElliminateInternalVariables + '
